@@ -158,6 +158,39 @@ func exprOriginCases(run *Run, r *rand.Rand, n int) {
 	pc := &decoder.PathContext{Functions: funcs, Files: map[string]*hcl.File{}, ReferenceTargets: reference.Targets{}, ReferenceOrigins: reference.Origins{}}
 	g := &exprGen{r: r}
 	o := &GenOpts{}
+	// objects whose keys are written as expressions (parenthesised, interpolated) before, between and behind
+	// known attributes - with and without a declared path origin - and unknown ones
+	objCons := schema.Object{Attributes: schema.ObjectAttributes{
+		"k":    {IsOptional: true, Constraint: schema.AnyExpression{OfType: cty.String}},
+		"attr": {IsOptional: true, Constraint: schema.Reference{OfScopeId: "variable"}, OriginForTarget: &schema.PathTarget{Address: schema.Address{schema.StaticStep{Name: "var"}, schema.AttrNameStep{}}, Path: lang.Path{Path: "other", LanguageID: "hcl"}, Constraints: schema.Constraints{ScopeId: "variable", Type: cty.DynamicPseudoType}}},
+	}}
+	for _, text := range []string{
+		`{ k = local.a, (var.key) = local.other }`,
+		`{ attr = var.x, "${var.k}" = var.y }`,
+		`{ (var.key) = local.z, k = var.s }`,
+		`{ k = var.a, (var.b) = var.c, attr = var.d, "${local.e}" = local.f, other = var.g }`,
+		`{ attr = var.x, ("lit") = var.y, k = "s" }`,
+		`{ unknown = var.u, (var.key) = var.v }`,
+		`{ k = var.a, attr = var.b, (var.c) = "x" }`,
+	} {
+		expr, diags := hclsyntax.ParseExpression([]byte(text), "main.tf", hcl.InitialPos)
+		if expr == nil || diags.HasErrors() {
+			continue
+		}
+		for _, cons := range []schema.Constraint{objCons, schema.Map{Elem: schema.AnyExpression{OfType: cty.String}, AllowInterpolatedKeys: true}, schema.AnyExpression{OfType: cty.Map(cty.String)}} {
+			for _, self := range []bool{false, true} {
+				res := safeCall("ExprReferenceOrigins", func() (interface{}, error) {
+					return decoder.VerifExprReferenceOrigins(pc, expr, cons, self), nil
+				})
+				if res.Panic != "" {
+					continue
+				}
+				obs, _ := res.Val.(reference.Origins)
+				run.Case("exprorigins", []S{Bool(self), fS, consS(cons), oexprS(expr)}, originsS(obs))
+				run.Count("exprorigins_expression_keys")
+			}
+		}
+	}
 	for i := 0; i < n; i++ {
 		var cons schema.Constraint
 		switch r.Intn(3) {
